@@ -4,4 +4,5 @@ func extractAll() {
 	extractCompat()
 	extractCacheKey()
 	extractOpTable()
+	extractC14Facts()
 }
